@@ -3,6 +3,6 @@ CONSTANTS
   MaxI = 2147483647
   TsDivIsFloor = TRUE
   CmpShiftChecked = TRUE
-INVARIANTS FoldOK ShiftOK
+INVARIANTS FoldOK ShiftOK ChainOK
 POSTCONDITION AllConsumed
 CHECK_DEADLOCK FALSE
